@@ -383,6 +383,11 @@ def loader_payload(prog, rep):
             if v is not None and v[0] == "newb" and v[1] == "array" and len(v[3]) >= 2:
                 if _direct_input(v[3][1], label):  # the initialiser of array(typecode, initialiser)
                     srcs.add("input")
+            if v is not None and v[0] == "newb" and v[1] == "array" and len(v[3]) == 1:
+                # array(typecode) filled by .frombytes(<input>)
+                if any(e.kind == "call" and e.name == "frombytes" and e.recv is not None and strip_epochs(e.recv)[:3] == strip_epochs(v)[:3] and e.args
+                       and _direct_input(e.args[0], label) for e in p.events):
+                    srcs.add("input")
             if "input" not in srcs:
                 bad = (p, v)
                 break
